@@ -648,7 +648,37 @@ SCENARIOS = [
 ]
 
 
+class _StopCheck(Exception):
+    pass
+
+
 def main(chk, replay=None):
+    try:
+        return _main(chk, replay)
+    except _StopCheck:
+        return None
+    except sched.Deadlock as e:
+        if replay is not None:
+            print(json.dumps(dict(still_fails=True, observed=[dict(clause="no-deadlock", error=str(e))])))
+            return 1
+        # threads of the library wait for each other (seen outside the places that expect it): everything the process does with
+        # the library from here on would wait too
+        try:
+            chk.violation({"what": "concurrent callers never return (deadlock): %s" % e, "class": {"clause": "no-deadlock"}, "observed": str(e)})
+        except _StopCheck:
+            pass
+        return None
+
+
+def _main(chk, replay=None):
+    _report = chk.violation
+
+    def _violation(rep, *a, **k):
+        r = _report(rep, *a, **k)
+        if (rep.get("class") or {}).get("clause") == "no-deadlock":
+            raise _StopCheck()          # the stuck threads hold locks of the library: nothing more can be run in this process
+        return r
+    chk.violation = _violation
     if replay is not None:
         root = tempfile.mkdtemp(prefix="c09r_")
         try:
